@@ -357,18 +357,22 @@ impl<'a, 'b> Gen<'a, 'b> {
                     }
                     self.p("(");
                     let n = self.fresh_upper();
-                    if self.t.chance(60) {
-                        let f = self.t.pick(FIELDS).to_string();
+                    // 0–3 nested field wrappers; the outermost or the innermost may be spelled like the binder
+                    let k = [0usize, 1, 1, 2, 2, 3][self.t.below(6)];
+                    for i in 0..k {
+                        let f = if (i == 0 && self.t.chance(90)) || (i + 1 == k && self.t.chance(70)) { n.clone() } else { self.t.pick(FIELDS).to_string() };
                         self.p(&f);
                         self.p("=");
                     }
                     self.p(&n);
-                    if self.t.chance(60) {
+                    if self.t.chance(if k >= 2 { 160 } else { 60 }) {
                         self.p("as");
                         self.aty(depth - 1);
                     }
-                    self.p(":");
-                    self.kind();
+                    if self.t.chance(200) {
+                        self.p(":");
+                        self.kind();
+                    }
                     self.p(")");
                 }
                 self.p(".");
@@ -513,7 +517,64 @@ impl<'a, 'b> Gen<'a, 'b> {
             }
             return;
         }
-        match self.t.below(14) {
+        match self.t.below(17) {
+            | 14 | 15 | 16 => {
+                // precedence stress: a parenthesised non-atomic term in an atom position (application argument,
+                // projection or destructor head, constructor argument, operand of `!` / `ret`): the parentheses
+                // are required or redundant depending on both forms
+                self.p("(");
+                match self.t.below(8) {
+                    | 0 | 1 => {
+                        // destructor application
+                        self.atom(depth - 1);
+                        let d = self.t.pick(DTORS).to_string();
+                        self.p(&d);
+                        if self.t.chance(80) {
+                            self.atom(depth - 1);
+                        }
+                    }
+                    | 2 => {
+                        self.atom(depth - 1);
+                        self.atom(depth - 1);
+                    }
+                    | 3 => {
+                        self.p("!");
+                        self.atom(depth - 1);
+                    }
+                    | 4 => {
+                        self.p("ret");
+                        self.atom(depth - 1);
+                    }
+                    | 5 => {
+                        let c = self.t.pick(CTORS).to_string();
+                        self.p(&c);
+                        self.atom(depth - 1);
+                    }
+                    | 6 => {
+                        self.atom(depth - 1);
+                        self.p("/");
+                        let f = self.t.pick(FIELDS).to_string();
+                        self.p(&f);
+                    }
+                    | _ => {
+                        self.p("fn");
+                        let n = self.fresh_lower();
+                        self.p(&n);
+                        self.p("=>");
+                        self.atom(depth - 1);
+                    }
+                }
+                self.p(")");
+                // …and sometimes something postfix right after it
+                match self.t.below(6) {
+                    | 0 => {
+                        self.p("/");
+                        let f = self.t.pick(FIELDS).to_string();
+                        self.p(&f);
+                    }
+                    | _ => {}
+                }
+            }
             | 0 | 1 => {
                 let n = self.lower();
                 self.p(&n);
